@@ -29,6 +29,17 @@ type Tuple []Value
 
 type Slice struct {
 	A []Value
+	// SymLen != nil: an oversized slice whose length is the symbolic term SymLen
+	// (larger than len(A)); only the prefix A is materialised. Supported
+	// operations: len, re-slicing inside the prefix or to the end, being the
+	// buffer of a (necessarily short) ReadAt. Anything else is unsupported.
+	SymLen *term.T
+}
+
+func (s Slice) mustConcrete(what string) {
+	if s.SymLen != nil {
+		panic(unsupported("oversized (symbolic length) slice used by " + what))
+	}
 }
 
 type Iface struct {
@@ -354,6 +365,7 @@ func asTerm(v Value) *term.T { return v.(*term.T) }
 func bytesOf(v Value) []*term.T {
 	switch v := v.(type) {
 	case Slice:
+		v.mustConcrete("bytesOf")
 		out := make([]*term.T, len(v.A))
 		for i, b := range v.A {
 			out[i] = b.(*term.T)
